@@ -63,6 +63,8 @@ def directed_cases(seed: int, tier: str) -> typing.List[dict]:
         ("lookup-deps", {"want_lookup": True}),
         ("ext-stem", {"ext": ".inc", "ns_stem": "nsfile", "ns_types": True}),
         ("empty-root", {"root": "emptyroot", "lookups": []}),
+        ("verbose", {"verbosity": "-v"}),
+        ("very-verbose", {"verbosity": "-vv", "ns_types": True}),
     ]
     for lang in ["c", "cpp", "py"]:
         for name, o in combos:
@@ -124,6 +126,8 @@ def _gen_opts(r: Rng, ds: dsdlgen.DsdlSet, lang: typing.Optional[str], fixed: ty
             o["extra_support"] = r.choice([True, "readonly"])  # a plain (copied) header in the language's support package
         if r.chance(1, 6):
             o["file_mode"] = r.choice([0o444, 0o644, 0o600, 0o400])
+        if r.chance(1, 5):
+            o["verbosity"] = r.choice(["-v", "-vv"])  # diagnostics are not part of the printed list (stdout is a data channel)
     o.update(fixed)
     if o.get("support_templates") and lang not in usertpl.SUPPORT_NAME:
         o.pop("support_templates")
@@ -232,6 +236,8 @@ def run_case(case: dict, ctx: dict) -> dict:
         o = dict(o)
         if o.get("support_templates"):
             o["support_templates"] = "%s-%s" % (o["support_templates"], o["lang"])
+        if o.get("verbosity"):
+            o["extra_argv"] = list(o.get("extra_argv", [])) + [o["verbosity"]]
         return o
 
     def env_plan(o: dict) -> dict:
@@ -292,9 +298,9 @@ def run_case(case: dict, ctx: dict) -> dict:
 
     def check_modes(phase: str) -> None:
         nonlocal evaluations, compared
-        for mode in ("list_outputs", "list_inputs", "dry_run"):
+        for mode in ("list_outputs", "list_inputs", "dry_run", "list_configuration"):
             for rofs in (False, True):
-                if rofs and phase == "dirty" and mode == "list_inputs":
+                if rofs and phase == "dirty" and mode in ("list_inputs", "list_configuration"):
                     continue
                 o = dict(without_env_lookups(O), mode=mode)
                 before = snapshot.snapshot(world.sandbox, with_mtime=True)
